@@ -3,7 +3,7 @@ import e1
 import nat
 
 RULE = ("one case = one seed = (model from a family chosen so that a step has several constraint islands and/or more than 16 candidate "
-        "collision pairs: groups of dense clusters, one dense cluster, forests of articulated trees on a floor, repo models; seeded "
+        "collision pairs: groups of dense clusters, one dense cluster, forests of articulated trees on a floor, repo models, a tactile pad with >=1000 taxels; seeded "
         "solver/cone/jacobian/integrator/island/sleep/noslip/multiccd options) x (pool of 1-8 simulated workers, optionally resized in "
         "mid-history) x (history of 2-8 calls: mj_step x1-3, mj_forward, mj_forward+mj_inverse, control/force/mocap/equality writes, resets) "
         "x (scheduling policy random/sticky/PCT/starve, basic-block preemption 0/0.03%/0.3%/3%, spurious wake-ups); a pool-less twin with "
@@ -14,7 +14,7 @@ ASSUME = [
     "memory is generous (32M arena for models of <=80 bodies): exhaustion under the no-free thread lock is C20's subject",
     "the simulator serialises threads (sequentially consistent); unsynchronised accesses are found by the TSan-in-the-loop stage, whose only happens-before edges are the ones the engine's own atomics/joins create",
     "arena scratch arrays whose unwritten part is unspecified (iacc, iefc_*, ifrc_*, contact.H, sparse structure under a dense Jacobian) are excluded from the comparison, as in C01",
-    "tactile sensors with >=1000 taxels are not reached (mesh assets need decoders that are stand-ins here): that clause is not covered",
+    "tactile sensors: a builtin plate mesh with >=1000 taxels touched by small bodies (probe compared_calls_with_parallel_tactile_sensor counts calls in which the sensor produced non-zero output under a pool)",
 ]
 
 
